@@ -368,6 +368,8 @@ func largeStatesJob(j Job, r *JobResult) {
 			return rewoundIteratorCheck(build, &r.St, tag("C08", "C06", "C09"), 0)
 		case "roundtrip":
 			return roundTripCheck(build, func(key, via string) {}, &r.St)
+		case "state":
+			return build().CheckState()
 		}
 		return purityPass(build, &r.St)
 	}
@@ -375,6 +377,7 @@ func largeStatesJob(j Job, r *JobResult) {
 		build := func() Inst {
 			in := s.New()
 			for _, o := range path {
+				inflightSeq.Add(1)
 				if v := safeStep(in, o, nil); v != nil && v.Class == "panic" {
 					panic("tool error: fill history panics: " + v.Msg) // reported by the family's own property
 				}
@@ -397,12 +400,30 @@ func largeStatesJob(j Job, r *JobResult) {
 		return false
 	}
 	if j.Replay != nil {
+		in := s.New()
+		for i, o := range j.Replay.Path {
+			if v := safeStep(in, o, nil); v != nil && v.Has(j.Prop) {
+				v.Msg = fmt.Sprintf("step %d of the history, %s: %s", i, o.String(), v.Msg)
+				r.Found = &Found{V: v, Path: j.Replay.Path[:i+1], Calls: describePath(s, j.Replay.Path[:i+1], nil)}
+				return
+			}
+		}
 		pass(j.Replay.Path)
 		return
 	}
 	var path []Op
 	cur := s.New()
 	memo := map[int]Op{}
+	var stepViol *Viol
+	var stepPath []Op
+	reportStep := func() bool {
+		if stepViol == nil {
+			return false
+		}
+		r.Found = &Found{V: stepViol, Path: stepPath, Calls: describePath(s, stepPath, nil)}
+		r.St.Exhaustive = false
+		return true
+	}
 	move := func(delta int) bool { // extend the history by the first operation that changes the size by delta
 		size := cur.Size()
 		var cands []Op
@@ -411,8 +432,14 @@ func largeStatesJob(j Job, r *JobResult) {
 		}
 		cands = append(cands, cur.Ops()...)
 		for _, o := range cands {
-			safeStep(cur, o, nil)
+			inflightSeq.Add(1)
+			sv := safeStep(cur, o, nil)
 			r.St.Transitions++
+			if sv != nil && sv.Has(j.Prop) && stepViol == nil {
+				// the transition oracle (returned values, Size / Values against the reference) of the history itself
+				sv.Msg = fmt.Sprintf("step %d of the history, %s: %s", len(path), o.String(), sv.Msg)
+				stepViol, stepPath = sv, append(append([]Op{}, path...), o)
+			}
 			if cur.Size() == size+delta {
 				path = append(path, o)
 				memo[delta] = o
@@ -420,6 +447,7 @@ func largeStatesJob(j Job, r *JobResult) {
 			}
 			cur = s.New() // not this one: rebuild the state
 			for _, p := range path {
+				inflightSeq.Add(1)
 				safeStep(cur, p, nil)
 			}
 		}
@@ -428,6 +456,9 @@ func largeStatesJob(j Job, r *JobResult) {
 	for cur.Size() < n {
 		if !move(+1) {
 			panic(fmt.Sprintf("tool error: no operation of %s grows the container from size %d", s.Name(), cur.Size()))
+		}
+		if reportStep() {
+			return
 		}
 		if sz := cur.Size(); sz%every == 0 || sz == n {
 			if pass(append([]Op{}, path...)) {
@@ -438,6 +469,9 @@ func largeStatesJob(j Job, r *JobResult) {
 	for cur.Size() > 0 {
 		if !move(-1) {
 			break // no single-element removal in this alphabet
+		}
+		if reportStep() {
+			return
 		}
 		if sz := cur.Size(); sz%every == 0 && sz > 0 {
 			if pass(append([]Op{}, path...)) {
